@@ -228,6 +228,8 @@ impl<F: RedisClientFactory, C: ConnFactory<Pkt = RespPacket>> MetaManager<F, C> 
 
         {
             let _guard = self.lock.lock();
+            #[cfg(feature = "verif_hooks")]
+            crate::verif_hooks::sched_point("sm_cmp", 0);
 
             if cluster_meta.get_epoch() <= self.epoch.load(Ordering::SeqCst)
                 && !cluster_meta.get_flags().force
@@ -250,10 +252,14 @@ impl<F: RedisClientFactory, C: ConnFactory<Pkt = RespPacket>> MetaManager<F, C> 
                 self.blocking_map.clone(),
             );
 
+            #[cfg(feature = "verif_hooks")]
+            crate::verif_hooks::sched_point("sm_map", 0);
             self.meta_map.store(Arc::new(MetaMap {
                 cluster_map,
                 migration_map,
             }));
+            #[cfg(feature = "verif_hooks")]
+            crate::verif_hooks::sched_point("sm_epoch", 0);
             // Should go after the meta_map.store above
             self.epoch.store(cluster_meta.get_epoch(), Ordering::SeqCst);
 
